@@ -791,9 +791,19 @@ impl<'a> Hooks for Checker<'a> {
                 // the installation has no business with (C03), whatever stopped it
                 let (fs, _) = slot_of(t);
                 let wild = write && !(addr >= fs.saturating_sub(16) && addr < fs + 32);
+                // (an installation that dies has not written the sequence the arch-specific
+                // properties describe either)
+                let cprops: &[&'static str] = match (self.arch, wild) {
+                    (Arch::X86_64, true) => &["C01", "C03"],
+                    (Arch::X86_64, false) => &["C01"],
+                    (Arch::A64, true) => &["C01", "C03", "C15"],
+                    (Arch::A64, false) => &["C01", "C15"],
+                    (Arch::Arm, true) => &["C01", "C03", "C16"],
+                    (Arch::Arm, false) => &["C01", "C16"],
+                };
                 self.viol(
                     "install-crashed-sigsegv",
-                    if wild { &["C01", "C03"] } else { &["C01"] },
+                    cprops,
                     format!("{what}: the installation touched {:#x} ({}) and would have died with SIGSEGV; entry offset in page {:#x}", addr, if write { "write" } else { "read" }, (t & !1) % sc.page_size),
                 );
                 // state is undefined from here on: stop judging this scenario
